@@ -21,9 +21,15 @@
 //! * Both x86_64 GNU/Linux, x86_64 Windows, x86_64 Mac OS are supported.
 
 // #![deny(missing_docs)]
+#![cfg_attr(kani, recursion_limit = "1024")]
+#![cfg_attr(kani, feature(allocator_api))]
 
 #[macro_use]
 extern crate log;
+
+#[cfg(kani)]
+#[path = "/verif/harness/shim/mod.rs"]
+mod verif_shim;
 
 mod cancel;
 mod config;
